@@ -203,6 +203,7 @@ def c05(v, tier, seed):
         pdu.negative_control(v, wd, [e for e in shards[0][:80]], "C05")
     # (d) the example talkers' packet streams against the Talkers.tla stream machine
     talker_streams(v, wd, "C05", rnd, q)
+    cvf_talker_streams(v, wd, "C05", rnd, q)
     v.cov["rule"] = ("(a) all ordered pairs of operations per view (BFS), (b) TLC-simulated histories of 40 operations over 3 buffers replayed without resets, "
                      "(c) seeded random histories recorded from the library and validated by PduTrace; RecordView/ReadsLastWritten invariants on the model; "
                      "(d) packet streams of the example talkers (AAF, CRF, hello-world, ACF-VSS in every mode) validated by the Talkers stream machine")
@@ -1117,3 +1118,58 @@ def unit_test_traces(v, wd, pid):
     pdu.validate_events(v, wd, pdu.shard(evs, 4), pid, "unit-tests",
                         keyfn=lambda e, a=None, b=None: "unit-test view=%s op=%s path=%s field=%s kind=trace" % (e.get("view"), e.get("op"), e.get("path"), e.get("field") or e.get("id") or "-"))
     v.sample({"unit_test_event": evs[len(evs) // 2]})
+
+
+def cvf_talker_streams(v, wd, pid, rnd, q):
+    """Growth: the CVF example talker (NAL splitter) against NalSplit.tla.  TLC enumerates byte streams over a token
+    alphabet; each is fed to the real talker under several chunkings of the input (chunks >= 3 bytes - see DESIGN.md 13.5);
+    the recorded run (input chunks, end of input, packets) must be a behaviour of NalSplit whatever the chunking."""
+    import xprog
+    res = run_tlc("GenNal", "SPECIFICATION GSpec\nCONSTANTS\n  Buf = {1}\n  MaxTok = %d\nCONSTRAINT Emit\nINVARIANT Partition\nCHECK_DEADLOCK FALSE\n" % (4 if q else 6), wd)
+    v.add_tlc("GenNal", res)
+    if not res.ok: raise Infra("NalSplit: Partition violated: " + (res.violation or "")[-800:])
+    streams = []
+    seen = set()
+    for e in res.emitted:
+        t = tuple(e["stream"])
+        if t not in seen and len(t) >= 3: seen.add(t); streams.append(list(t))
+    if q and len(streams) > 500: streams = rnd.sample(streams, 500)
+    if not q and len(streams) > 6000: streams = rnd.sample(streams, 6000)
+    exe = xprog.build_xh(wd, "cvf-talker")
+    lines, meta = [], []
+    for s_ in streams:
+        chunkings = [[s_]]
+        for size in (3, 4, 5):
+            ch = [s_[i:i + size] for i in range(0, len(s_), size)]
+            if len(ch) > 1 and len(ch[-1]) < 3: ch[-2] = ch[-2] + ch[-1]; ch.pop()
+            if len(ch) > 1: chunkings.append(ch)
+        if len(s_) >= 6:
+            cut = rnd.randrange(3, len(s_) - 2)
+            chunkings.append([s_[:cut], s_[cut:]])
+        for ch in chunkings:
+            lines.append("T 0 0 0 100000 " + " ".join(hexs(c_) for c_ in ch)); meta.append((s_, ch))
+    obs, _ = xprog.run_xh(exe, lines)
+    evs = []
+    for (s_, ch), r in zip(meta, obs):
+        if r["status"] != "ok":
+            v.violation("cvf-talker outcome=%s" % r["status"].split(":")[0], "cvf-talker %s on stream %s chunked %s" % (r["status"], hexs(s_), [len(c_) for c_ in ch]), {"stream": s_, "chunks": ch})
+            continue
+        evs.append({"e": "reset"})
+        items = [x for seg in r["outs"] for x in seg]
+        n_in = 0
+        for x in items:
+            if x.startswith("i"):
+                evs.append({"e": "input", "bytes": unhexs(x[1:])}); n_in += 1
+                if n_in == len(ch): evs.append({"e": "eof"})       # the next read returns 0
+            else:
+                evs.append({"e": "pkt", "bytes": unhexs(x)})
+    def resume(evs_, idx):
+        for j in range(idx + 1, len(evs_)):
+            if evs_[j]["e"] == "reset": return j
+        return None
+    cfg = "SPECIFICATION TSpec\nCONSTANT Buf = {1}\nINVARIANT AllSent\nINVARIANT AllSentAtReset\nPOSTCONDITION TraceAccepted\nCHECK_DEADLOCK FALSE\n"
+    for part in pdu.shard_by(evs, lambda e: e["e"] == "reset", 8 if q else 16):
+        pdu.validate_events(v, wd, [part], pid, "cvf-talker", module="NalTrace", cfg=cfg, resume=resume, max_resume=4,
+                            keyfn=lambda e, a=None, b=None: "cvf-talker event=%s not a behaviour of NalSplit" % e.get("e"))
+    v.cov["cvf_talker_runs"] = len(lines)
+    v.cov["evaluations"] += len(lines)
